@@ -15,4 +15,9 @@ CONSTANTS
   RawMags <- RawMagsOne
   StepUsesDoubleInv = FALSE
   DurationWraps = FALSE
+  Jumps <- JumpsFull
+  StepAt = {1, 2, 3, 4}
+  MaxInDo = 4
+  ReadsNowFirst = FALSE
+  StepDen = 20
 INVARIANTS Emit
